@@ -304,15 +304,22 @@ Section History.
   Inductive vsrc :=
   | VVals (vals : list T)                  (* a numpy array, a list, a scalar (broadcast resolved by the caller) *)
   | VSelf (axis : nat) (idx : list nat)    (* a scaled view of this very record, las.<axis>[idx], evaluated before anything is modified *)
-  | VOther (xs : list Z) (sc off : T).     (* a scaled view of another record that holds xs under (sc, off) *)
+  | VOther (xs : list Z) (sc off : T)      (* a scaled view of another record that holds xs under (sc, off) *)
+  (* round 6 - an augmented assignment `las.<axis>[idx] op= d` (+=, -=, *=, /=): the views define no in-place operator
+     (gen_view_inplace_falls_back), so Python evaluates `view[idx] op d` - the coordinates the view presents combined with d by the
+     view's binary operator g (gen_view_add ... : np.array(self) op other) - and assigns the result back by the same route;
+     ds: one operand per point (a scalar d is broadcast by the caller) *)
+  | VSelfOp (axis : nat) (idx : list nat) (g : T -> T -> T) (ds : list T).
 
   Definition pick {A} (l : list A) (d : A) (idx : list nat) : list A := map (fun i => nth i l d) idx.
+  Definition map2 {A B C} (g : A -> B -> C) (xs : list A) (ys : list B) : list C := map (fun p => g (fst p) (snd p)) (combine xs ys).
   (* ScaledArrayView.__setitem__ takes a view value by its scaled values (np.array(value)): what the view presents *)
   Definition vsrc_vals (s : st) (v : vsrc) : list T :=
     match v with
     | VVals vals => vals
     | VSelf a idx => pick (presented s a) tdefault idx
     | VOther xs sc off => map (fun X => present X sc off) xs
+    | VSelfOp a idx g ds => map2 g (pick (presented s a) tdefault idx) ds
     end.
 
   Fixpoint set_many (col : list Z) (idx : list nat) (xs : list Z) : list Z :=
@@ -423,7 +430,7 @@ Definition f_run := run fl f_present f_store_checked f_restore_checked fl_eqb No
 Definition f_presented := presented fl f_present None.
 Definition f_init := init fl.
 
-Arguments VVals {T}. Arguments VSelf {T}. Arguments VOther {T}.
+Arguments VVals {T}. Arguments VSelf {T}. Arguments VOther {T}. Arguments VSelfOp {T}.
 Arguments mksst {T}. Arguments base {T}. Arguments wr {T}.
 Arguments SBase {T}. Arguments SAttr {T}. Arguments SItem {T}. Arguments SRecAttr {T}. Arguments SView {T}. Arguments SItems {T}.
 Arguments SRecReplaceS {T}. Arguments SRecReplaceO {T}. Arguments SRecMutateS {T}. Arguments SRecMutateO {T}.
@@ -433,3 +440,11 @@ Definition q_sstep := sstep Q q_present q_store_checked q_restore_checked Qeq_bo
 Definition q_srun := srun Q q_present q_store_checked q_restore_checked Qeq_bool 0%Q.
 Definition f_sstep := sstep fl f_present f_store_checked f_restore_checked fl_eqb None.
 Definition f_srun := srun fl f_present f_store_checked f_restore_checked fl_eqb None.
+
+(* the binary operators of a scaled view (ArrayView.__add__ / __sub__ / __mul__ / __truediv__, regenerated from the source), which
+   `las.x += d`, `-=`, `*=`, `/=` fall back to; over exact rationals and over binary64 *)
+Inductive binop := BAdd | BSub | BMul | BDiv.
+Definition q_view_op (b : binop) : Q -> Q -> Q :=
+  match b with BAdd => gen_view_add Qplus | BSub => gen_view_sub Qminus | BMul => gen_view_mul Qmult | BDiv => gen_view_truediv Qdiv end.
+Definition f_view_op (b : binop) : fl -> fl -> fl :=
+  match b with BAdd => gen_view_add f_add | BSub => gen_view_sub f_sub | BMul => gen_view_mul f_mul | BDiv => gen_view_truediv f_div end.
